@@ -125,3 +125,45 @@ class NullCol:
 
     def __getattr__(self, name):
         return lambda *a, **k: None
+
+
+def hidden_state(obj, known=(), depth=2):
+    """Digest of every instance attribute NOT named in `known`.
+
+    A canonical key that is an abstraction is only sound if the object carries no state beyond what
+    the abstraction looks at.  Appending hidden_state(obj, known) to the key makes any attribute the
+    abstraction does not know about (a cache, a cursor added by a later change) part of the state,
+    so such states are not merged away and their futures are explored."""
+    import hashlib
+
+    import numpy as np
+
+    out = []
+    for k in sorted(vars(obj)):
+        if k in known:
+            continue
+        v = vars(obj)[k]
+        out.append((k, _dig(v, depth)))
+    return tuple(out)
+
+
+def _dig(v, depth):
+    import hashlib
+
+    import numpy as np
+
+    if isinstance(v, np.ndarray):
+        return ("nd", str(v.dtype), v.shape, hashlib.sha1(np.ascontiguousarray(v).tobytes()).hexdigest()[:16])
+    if isinstance(v, (int, float, str, bool, type(None), np.generic)):
+        return repr(v)
+    if isinstance(v, (list, tuple)):
+        return tuple(_dig(x, depth) for x in v)
+    if isinstance(v, (set, frozenset)):
+        return tuple(sorted(repr(x) for x in v))
+    if isinstance(v, dict):
+        return tuple((repr(k), _dig(x, depth)) for k, x in sorted(v.items(), key=lambda kv: repr(kv[0])))
+    if hasattr(v, "__dict__") and depth > 0:
+        return tuple((k, _dig(x, depth - 1)) for k, x in sorted(vars(v).items()))
+    if callable(v) or isinstance(v, type):
+        return "callable"
+    return repr(type(v))
